@@ -119,17 +119,24 @@ def params_variants(rng, scn, k):
     return out
 
 
-def tla_scn(scn, sid):
-    """The scenario record handed to the monitor specification."""
+def tla_groups(scn, glist):
     groups = {}
-    for g in scn["groups"]:
+    for g in glist:
         groups[g["name"]] = {
             "tb": bool(g["tb"]), "size": int(g["size"]), "tryadd": bool(g["tryadd"]),
             "procs": int(g["procs"]), "cap": int(g.get("wall", WALL_MIN)) * max(1, int(g["procs"])),
             "dry": bool(g.get("dry", False)),
             "opts": expected_opts(g), "run": expected_run(scn, g),
         }
+    return groups
+
+
+def tla_scn(scn, sid):
+    """The scenario record handed to the monitor specification."""
+    groups = tla_groups(scn, scn["groups"])
     return {
+        # replacement parameters a resubmission may pass with -s (JadeImpl.UserResubmit); the same names as `groups`
+        "hasregroup": bool(scn.get("regroup")), "regroup": tla_groups(scn, scn.get("regroup") or scn["groups"]),
         "id": sid, "jobs": list(scn["jobs"]),
         "blk": {j: list(scn["blk"][j]) for j in scn["jobs"]},
         "flag": {j: bool(scn["flag"][j]) for j in scn["jobs"]},
